@@ -4,7 +4,9 @@ import ScriggoV.Model.Lexer
 `Model/Lexer/Template.lean` (C04/C21) models the whole template lexer: tokens, lines, columns,
 faults, fuel. For the question "which CONTEXT is the lexer in at a given offset" only a few fields
 matter. This file is the projection of that model's main loop onto those fields, for an HTML file
-(`fileContext = ContextHTML`, `isHTML = true`) and for positions at which no template delimiter
+whose delimiters are shows (`l.base = ContextHTML` throughout — `l.base` is written at the start of scan
+and by the statements of a macro / using body only, Gen/LexCtxCases.baseWrites —, hence `isHTML() = true`
+and `l.ctx = l.base`, `l.tag.ctx = l.base` are `ContextHTML`) and for positions at which no template delimiter
 (`{{`, `{%`, `{#`, `#}`) starts: a pure, total function `cstep` that mirrors `step` branch by
 branch (`ctxSwitch` and `tail`), with the same inner loops (`scanTag`, `scanAttribute`).
 
@@ -225,7 +227,9 @@ def caseCSSP (text : Bytes) (s : CSt) (c : UInt8) : CSt × Bool :=
     else (s, true)
   else
     if c = 0x5c then
-      if text[s.pos + 1]? = some s.quote then ({ s with pos := s.pos + 1 }, true) else (s, true)
+      if text[s.pos + 1]? = some s.quote ∨ text[s.pos + 1]? = some 0x5c then
+        ({ s with pos := s.pos + 1 }, true)
+      else (s, true)
     else if c = s.quote then ({ s with ctx := ContextCSS, quote := 0 }, true)
     else if c = 0x3c then
       if endStyleP text s c then ({ s with ctx := ContextHTML, pos := s.pos + 6, quote := 0 }, true)
@@ -235,7 +239,11 @@ def caseCSSP (text : Bytes) (s : CSt) (c : UInt8) : CSt × Bool :=
 def caseJSP (text : Bytes) (s : CSt) (c : UInt8) : CSt × Bool :=
   if endScriptP text s c then ({ s with ctx := ContextHTML, pos := s.pos + 7, jsComment := 0 }, true)
   else if s.jsComment = 1 then
-    if c = 0x0a ∨ c = 0x0d then ({ s with jsComment := 0 }, true) else (s, true)
+    -- LF, CR, U+2028 and U+2029 terminate a line
+    if c = 0x0a ∨ c = 0x0d ∨ c = 0xe2 ∧ text[s.pos + 1]? = some 0x80 ∧
+        (text[s.pos + 2]? = some 0xa8 ∨ text[s.pos + 2]? = some 0xa9) then
+      ({ s with jsComment := 0 }, true)
+    else (s, true)
   else if s.jsComment = 2 then
     if c = 0x2a ∧ text[s.pos + 1]? = some 0x2f then ({ s with pos := s.pos + 1, jsComment := 0 }, true)
     else (s, true)
@@ -249,7 +257,9 @@ def caseJSP (text : Bytes) (s : CSt) (c : UInt8) : CSt × Bool :=
 
 def caseJSStringP (text : Bytes) (s : CSt) (c : UInt8) (back : Nat) (q : UInt8) : CSt × Bool :=
   if c = 0x5c then
-    if text[s.pos + 1]? = some q then ({ s with pos := s.pos + 1 }, true) else (s, true)
+    -- an escaped quote and an escaped backslash are skipped as a pair
+    if text[s.pos + 1]? = some q ∨ text[s.pos + 1]? = some 0x5c then ({ s with pos := s.pos + 1 }, true)
+    else (s, true)
   else if c = q then ({ s with ctx := back, quote := 0 }, true)
   else if c = 0x3c then
     if endScriptP text s c then ({ s with ctx := ContextHTML, pos := s.pos + 7, quote := 0 }, true)
